@@ -79,6 +79,43 @@ Theorem C08_element_call :
   forall fam f a prev l s, el l s (next_elem fam f a prev l s).
 Proof. exact next_elem_el. Qed.
 
+(* ---- the element functions in a loop of the CALLER on its own path (the loop of mpt_parse_config written out, as
+   examples/core/parse.c does it, the program behind the five parse_* ctest cases): [bin] = the path carries
+   MPT_PATHFLAG(SepBinary) — mpt_path_add then refuses elements above 255 bytes instead of elements holding the
+   separator and takes two bytes behind the element for the length bytes.  For both settings: the loop returns,
+   reads every character at most once, calls getc once per character plus once per element call at most, never
+   reads outside the post data, and on success the handler has seen a well-nested event sequence. *)
+Theorem C08_caller_loop_total :
+  forall bin fam f a l,
+    let c := parse_events_b bin fam f a l in
+    c_ret c <> ROutOfFuel /\ exists consumed, consumed ++ c_rest c = l.
+Proof. exact parse_events_b_total. Qed.
+
+Theorem C08_caller_loop_clean :
+  forall bin fam f a l,
+    let c := parse_events_b bin fam f a l in
+    c_ret c <> RFault /\ (0 <= c_ret c -> nested [] (c_h c) = true) /\
+    calls (c_st c) <= (len l - len (c_rest c)) + nev (c_h c) + 1.
+Proof. exact parse_events_b_all. Qed.
+
+Theorem C08_caller_loop_depth :
+  forall bin fam f a l,
+    let c := parse_events_b bin fam f a l in 0 <= c_ret c -> depth_ok 0 (abs_events (c_h c)) = true.
+Proof. exact parse_events_b_depth. Qed.
+
+(* without the flag the caller loop is mpt_parse_config itself *)
+Theorem C08_caller_loop_plain :
+  forall fam f a l, parse_events_b false fam f a l = parse_events fam f a l.
+Proof. exact parse_events_b_false. Qed.
+
+(* an element mpt_path_add accepts in the binary format fits its length byte; `first` is that length *)
+Theorem C08_binary_add_fits :
+  forall p n p',
+    pinv2 p -> pbin p = true -> path_add p n = (0, p') ->
+    n <= 255 /\ pbin p' = true /\ pelems p' = pelems p ++ [firstn (Z.to_nat n) (ppost p)] /\
+    len (firstn (Z.to_nat n) (ppost p)) = n /\ (pelems p = [] -> pfirst p' = n).
+Proof. exact path_add_bin. Qed.
+
 (* ---- non-vacuity ---- *)
 Definition txt1 : list Z :=   (* a {\n b = "x y"\n c {\n }\n}\nd=1\n *)
   [97;32;123;10;32;98;32;61;32;34;120;32;121;34;10;32;99;32;123;10;32;125;10;125;10;100;61;49;10].
@@ -116,6 +153,21 @@ Example C08_ex_enc :
                                 [37;97;10;107;107;61;49;10;37;98;10])) = [1; 7; 2; 1].
 Proof. vm_compute. reflexivity. Qed.
 
+(* the binary format carries a name with the separator character, the separator format refuses it (a.b { c = 1 }) *)
+Example C08_ex_binary_dot :
+  let t := [97;46;98;32;123;10;99;61;49;10;125;10] in
+  map (fun e => (ev_ret e, ev_path e, ev_first e)) (c_h (parse_events_b true FamPre fmt_default allow_init t)) =
+    [(1, [[97;46;98]], 3); (7, [[97;46;98]; [99]], 3); (2, [[97;46;98]], 3)]
+  /\ c_ret (parse_events_b true FamPre fmt_default allow_init t) = 0
+  /\ c_ret (parse_events_b false FamPre fmt_default allow_init t) = BadOperation.
+Proof. vm_compute. repeat split; reflexivity. Qed.
+(* a name of 256 bytes: refused by the binary format, read by the separator format *)
+Example C08_ex_binary_256 :
+  let t := repeat 97 256 ++ [61;49;10] in
+  c_ret (parse_events_b true FamPre fmt_default allow_init t) = BadOperation
+  /\ map ev_ret (c_h (parse_events_b false FamPre fmt_default allow_init t)) = [7].
+Proof. vm_compute. split; reflexivity. Qed.
+
 Print Assumptions C08_parse_total.
 Print Assumptions C08_parse_node_total.
 Print Assumptions C08_getc_count_le_length.
@@ -125,3 +177,8 @@ Print Assumptions C08_events_depth.
 Print Assumptions C08_no_fault.
 Print Assumptions C08_parse_node_no_fault.
 Print Assumptions C08_element_call.
+Print Assumptions C08_caller_loop_total.
+Print Assumptions C08_caller_loop_clean.
+Print Assumptions C08_caller_loop_depth.
+Print Assumptions C08_caller_loop_plain.
+Print Assumptions C08_binary_add_fits.
